@@ -40,13 +40,19 @@ Inductive gseg :=
 | GE (e : event)
 | GRange (r0 n : N) (k v : bytes).      (* PUT events with revisions r0 .. r0+n-1 *)
 
-Definition bulk_we (r0 : N) (k v : bytes) (i : nat) : wevent :=
-  mkWe (r0 + N.of_nat i) (r0 + N.of_nat i - 1) true VPut k v.
+Definition put_we (r : N) (k v : bytes) : wevent := mkWe r (r - 1) true VPut k v.
+
+(* f r0 ++ f (r0+1) ++ ... (n terms) *)
+Fixpoint from_rev {A} (n : nat) (r : N) (f : N -> list A) : list A :=
+  match n with
+  | O => []
+  | S n' => f r ++ from_rev n' (r + 1) f
+  end.
 
 Definition gexpand (g : list gseg) : list event :=
   flat_map (fun sg => match sg with
                       | GE e => [e]
-                      | GRange r0 n k v => map (fun i => to_event (bulk_we r0 k v i)) (seq 0 (N.to_nat n))
+                      | GRange r0 n k v => from_rev (N.to_nat n) r0 (fun r => [to_event (put_we r k v)])
                       end) g.
 
 Record wobs := mkObs {
@@ -70,8 +76,8 @@ Inductive rstep :=
 Definition expand_step (st : rstep) : list rstep :=
   match st with
   | RBulk r0 n k v after =>
-      flat_map (fun i => map RL ([LSeqTake (bulk_we r0 k v i); LSeqCache; LSeqSend] ++ after)) (seq 0 (N.to_nat n))
-  | RRep n ls => flat_map (fun _ => map RL ls) (seq 0 (N.to_nat n))
+      from_rev (N.to_nat n) r0 (fun r => map RL ([LSeqTake (put_we r k v); LSeqCache; LSeqSend] ++ after))
+  | RRep n ls => from_rev (N.to_nat n) 0 (fun _ => map RL ls)
   | _ => [st]
   end.
 Definition expand_steps (steps : list rstep) : list rstep := flat_map expand_step steps.
@@ -171,7 +177,7 @@ Fixpoint run_oracle (pa : params) (steps : list rstep) (s : sys) (sg : list even
   | [] => None
   | RL lb :: t => run_oracle pa t (step pa s lb) (sg_push sg lb) drops
   | RObs o :: t =>
-      match obs_oracle s (rev sg) drops o with
+      match obs_oracle s (frev sg) drops o with
       | Some code => Some code
       | None => run_oracle pa t s sg drops
       end
